@@ -187,7 +187,7 @@ def gen_prog_case(rng, tier, force=None):
     cfg.update(force.get('cfg', {}))
     rate = rng.choice([F(1), F(1), F(2), F(1, 2), F(1, 4)])
     nwf = rng.randint(1, 4)
-    bad_len = rng.random() < 0.08
+    bad_len = rng.random() < 0.12
     oor_case = rng.random() < 0.06
     rangeinfo = {}
     for i in (1, 0):
@@ -207,7 +207,8 @@ def gen_prog_case(rng, tier, force=None):
         n = rng.choice([192, 192, 192, 208, 224, 256, 320, 384])
         ln = F(n)
         if bad_len and w == 0:
-            ln = rng.choice([F(100), F(16), F(191), F(200), F(193), F(176), F(385, 2), F(769, 4), F(160), F(32)])
+            ln = rng.choice([F(100), F(16), F(191), F(200), F(193), F(176), F(385, 2), F(769, 4), F(160), F(32),
+                             F(200), F(216), F(232), F(248), F(184), F(196), F(194), F(204)])
             n = int(ln)
         chans = {}
         for k in defined:
@@ -281,10 +282,17 @@ def gen_cases(rng, tier, ctx):
         [1, False, None, [[1, False, None, [[1, False, 0, []]]], [1, False, None, [[1, False, 1, []]]],
                           [1, False, None, [[1, False, 0, []]]]]],
         [2, False, None, [[2, True, None, [[2, False, None, [[1, False, 0, []], [1, False, 1, []]]]]], [1, False, 1, []]]],
+        # neighbour unrolling (previous / next table) with short tables
+        [1, False, None, [[2, False, None, [[1, False, 0, []]]], [1, False, None, [[1, False, 1, []]]]]],
+        [1, False, None, [[1, False, None, [[1, False, 1, []]]], [2, False, None, [[1, False, 0, []]]]]],
+        [1, False, None, [[3, False, None, [[1, False, 0, []], [1, False, 1, []]]], [1, False, None, [[1, False, 1, []]]],
+                          [2, False, None, [[1, False, 0, []]]]]],
+        [1, False, None, [[4, False, None, [[1, False, 0, []]]], [1, False, None, [[1, False, 1, []], [1, False, 0, []]]],
+                          [1, False, None, [[1, False, 1, []]]]]],
     ]
     for t in targeted:
-        for mn, mx in [(1, 2), (2, 3), (3, 4), (3, 6), (2, 2), (3, 16), (4, 5)]:
-            if tier == 'quick' and rng.random() < 0.5:
+        for mn, mx in [(1, 2), (2, 3), (3, 4), (3, 6), (2, 2), (3, 16), (4, 5), (2, 4), (3, 5), (4, 8)]:
+            if tier == 'quick' and rng.random() < 0.35:
                 continue
             c = gen_prog_case(rng, tier, {'tree': t, 'cfg': {'min': mn, 'max': mx, 'mode': None}})
             while len(c['wfs']) < 2:
